@@ -359,7 +359,14 @@ impl RoutingThread {
             txs: vec![],
             gts: vec![],
         };
-        for i in (last_shared_ancestor + 1)..=latest_block_id {
+        // the block ring only holds the last get_ring_buffer_size() heights: nothing older can be
+        // found in it, so there is no point in walking over a longer range (the latest block id of a
+        // lite node comes from a ghost chain, i.e. from a peer)
+        let first_block_id = std::cmp::max(
+            last_shared_ancestor.saturating_add(1),
+            latest_block_id.saturating_sub(blockchain.blockring.get_ring_buffer_size()),
+        );
+        for i in first_block_id..=latest_block_id {
             if let Some(hash) = blockchain
                 .blockring
                 .get_longest_chain_block_hash_at_block_id(i)
@@ -465,7 +472,13 @@ impl RoutingThread {
             blockchain.blockring.get_latest_block_id()
         );
 
-        for i in last_shared_ancestor..(blockchain.blockring.get_latest_block_id() + 1) {
+        // see generate_ghost_chain: heights older than the block ring cannot be found in it
+        let latest_block_id = blockchain.blockring.get_latest_block_id();
+        let first_block_id = std::cmp::max(
+            last_shared_ancestor,
+            latest_block_id.saturating_sub(blockchain.blockring.get_ring_buffer_size()),
+        );
+        for i in first_block_id..=latest_block_id {
             if let Some(block_hash) = blockchain
                 .blockring
                 .get_longest_chain_block_hash_at_block_id(i)
